@@ -235,12 +235,6 @@ func baseState(mod string) chain.M {
 	}
 	s := chain.CopyM(defaultState)
 	s["mod"] = mod
-	if mod == "htlc" {
-		// the htlc baseline carries one supported asset
-		ps := chain.CopyM(s["params"].(chain.M))
-		ps["htlc"] = modByName("htlc").Base()
-		s["params"] = ps
-	}
 	return s
 }
 
